@@ -82,6 +82,11 @@ class C01(core.Prop):
                     ks = [1 + (len(out) % nv)] if tier == 'quick' else [1 + ((len(out) + j * 3) % nv) for j in range(3)]
                     for k in sorted(set(ks)):
                         out.append(pl.make_case(smi, cut, comps, dict(OPT_VARIANTS[0], variant=k)))
+        # four cut bonds between one pair of fragments (the quadruple order symbol '$' in the base graph): cubane cut into two faces
+        cub = 'C12C3C4C1C5C2C3C45'
+        out.append(pl.make_case(cub, [(3, 4), (0, 5), (1, 6), (2, 7)], [[0, 1, 2, 3], [4, 5, 6, 7]], OPT_VARIANTS[0]))
+        if tier != 'quick':
+            out.append(pl.make_case(cub, [(3, 4), (0, 5), (1, 6), (2, 7)], [[0, 1, 2, 3], [4, 5, 6, 7]], OPT_VARIANTS[1]))
         return out
 
     def build(self, shape):
